@@ -119,11 +119,39 @@ macro_rules! shared_svc {
         )*
     };
 }
+/// Services with short explicit names that are classic collision pairs of weak string hashes
+/// (h*31+c: "Aa"/"BB"; order-insensitive sums: "ab"/"ba"): the handler table is keyed by a hash of
+/// (service name, message path), two different pairs must never share an entry.
+macro_rules! named_svc {
+    ($name:ident, $sname:expr, $tag:expr, $msg:ident) => {
+        pub struct $name;
+        impl RpcService for $name {
+            fn service_name() -> &'static str {
+                $sname
+            }
+            fn register_handlers(r: &mut ServiceRegistry<Self>) {
+                r.add_handler::<$msg>();
+            }
+        }
+        #[async_trait]
+        impl Handler<$msg> for $name {
+            type Reply = u32;
+            async fn on_message(&self, m: Request<$msg>) -> Result<u32, Status> {
+                Ok($tag * 1_000_000 + m.0.value())
+            }
+        }
+    };
+}
+named_svc!(SvcAa, "Aa", 10, M1);
+named_svc!(SvcBB, "BB", 11, M1);
+named_svc!(SvcAb, "ab", 12, M2);
+named_svc!(SvcBa, "ba", 13, M2);
+
 shared_svc!(SvcP1, 7, [M1]);
 shared_svc!(SvcP2, 8, [M2]);
 shared_svc!(SvcP3, 9, [M1, M2]);
 
-const SVC_NAMES: [&str; 9] = ["A", "B", "C", "D", "Gen<Alpha>", "Gen<Beta>", "P1(shared)", "P2(shared)", "P3(shared)"];
+const SVC_NAMES: [&str; 13] = ["A", "B", "C", "D", "Gen<Alpha>", "Gen<Beta>", "P1(shared)", "P2(shared)", "P3(shared)", "Aa", "BB", "ab", "ba"];
 
 /// (service name as the server knows it, [(probe label, tag)]) of every service type
 fn c13_registers(svc: usize) -> (&'static str, Vec<(&'static str, u32)>) {
@@ -137,6 +165,10 @@ fn c13_registers(svc: usize) -> (&'static str, Vec<(&'static str, u32)>) {
         6 => ("shared", vec![("shared/M1", 7)]),
         7 => ("shared", vec![("shared/M2", 8)]),
         8 => ("shared", vec![("shared/M1", 9), ("shared/M2", 9)]),
+        9 => ("Aa", vec![("Aa/M1", 10)]),
+        10 => ("BB", vec![("BB/M1", 11)]),
+        11 => ("ab", vec![("ab/M2", 12)]),
+        12 => ("ba", vec![("ba/M2", 13)]),
         _ => unreachable!(),
     }
 }
@@ -162,6 +194,14 @@ fn c13_apply(server: &Server, action: u8) {
         (6, false) => server.remove_service(SvcP1::service_name()),
         (7, false) => server.remove_service(SvcP2::service_name()),
         (8, false) => server.remove_service(SvcP3::service_name()),
+        (9, true) => server.add_service(SvcAa),
+        (10, true) => server.add_service(SvcBB),
+        (11, true) => server.add_service(SvcAb),
+        (12, true) => server.add_service(SvcBa),
+        (9, false) => server.remove_service(SvcAa::service_name()),
+        (10, false) => server.remove_service(SvcBB::service_name()),
+        (11, false) => server.remove_service(SvcAb::service_name()),
+        (12, false) => server.remove_service(SvcBa::service_name()),
         _ => unreachable!(),
     }
 }
@@ -193,10 +233,14 @@ async fn c13_probe(channel: &Channel, nonce: u32) -> Vec<(&'static str, Result<u
     // the name decides, not the client's type: P3 is the only type that may send both
     call!(SvcP3, M1, "shared/M1");
     call!(SvcP3, M2, "shared/M2");
+    call!(SvcAa, M1, "Aa/M1");
+    call!(SvcBB, M1, "BB/M1");
+    call!(SvcAb, M2, "ab/M2");
+    call!(SvcBa, M2, "ba/M2");
     out
 }
 
-const C13_LABELS: [&str; 9] = ["A/M1", "B/M1", "C/M1", "C/M2", "D/M2", "Gen<Alpha>/M1", "Gen<Beta>/M1", "shared/M1", "shared/M2"];
+const C13_LABELS: [&str; 13] = ["A/M1", "B/M1", "C/M1", "C/M2", "D/M2", "Gen<Alpha>/M1", "Gen<Beta>/M1", "shared/M1", "shared/M2", "Aa/M1", "BB/M1", "ab/M2", "ba/M2"];
 
 /// model: probe label -> tag of the handler serving it
 fn c13_expect(handlers: &BTreeMap<&'static str, u32>, nonce: u32) -> Vec<(&'static str, Result<u32, String>)> {
@@ -257,7 +301,7 @@ pub fn c13(args: &Args) {
     let mut report = Report::new(
         args,
         "E3-registry",
-        "services A,B (message M1), C (M1,M2), D (M2) and two instantiations Gen<Alpha>, Gen<Beta> of one generic service (M1; names differing only inside <...>) on one real Server: every history of <= 5 actions out of {add X, remove X} over A-D (8 actions incl. double add, double remove, remove-unknown; 37 448 histories) over {A, Gen<Alpha>, Gen<Beta>} (6 actions; 9 330 histories) and over {A, P1, P2, P3} where P1 (M1), P2 (M2), P3 (M1,M2) are three service TYPES registered under ONE service name (7 actions; 19 607 histories; the model keeps handlers per name: adds accumulate, a later add of the same message replaces the handler, removing the name removes them all) executed on the in-memory transport (same ServerState / handler dispatch code as TCP), after EVERY step all 9 (service name,message) pairs are called through real RpcClients: Ok with that service's tag iff the service is in the registered-names model, else ServiceUnavailable. A seeded sample of histories is repeated on a real loopback TCP server. Non-trivial = history contains a removal; distinct = distinct histories.",
+        "services A,B (message M1), C (M1,M2), D (M2) and two instantiations Gen<Alpha>, Gen<Beta> of one generic service (M1; names differing only inside <...>) on one real Server: every history of <= 5 actions out of {add X, remove X} over A-D (8 actions incl. double add, double remove, remove-unknown; 37 448 histories) over {A, Gen<Alpha>, Gen<Beta>} (6 actions; 9 330 histories) and over {A, P1, P2, P3} where P1 (M1), P2 (M2), P3 (M1,M2) are three service TYPES registered under ONE service name (7 actions; 19 607 histories; the model keeps handlers per name: adds accumulate, a later add of the same message replaces the handler, removing the name removes them all) executed on the in-memory transport (same ServerState / handler dispatch code as TCP), and over four services whose short names are collision pairs of weak string hashes ('Aa'/'BB' under h*31+c, 'ab'/'ba' under order-insensitive sums; 8 actions, 37 448 histories) executed likewise; after EVERY step all 13 (service name,message) pairs are called through real RpcClients: Ok with that service's tag iff the service is in the registered-names model, else ServiceUnavailable. A seeded sample of histories is repeated on a real loopback TCP server. Non-trivial = history contains a removal; distinct = distinct histories.",
     );
     if let Some(path) = &args.replay {
         let r = read_replay(path);
@@ -325,6 +369,23 @@ pub fn c13(args: &Args) {
         }
         rec3(max_len, &mut Vec::new(), &mut hists);
     }
+    // fourth universe: four services whose short names are collision pairs of weak string hashes (8 actions)
+    {
+        fn rec4(max: usize, cur: &mut Vec<u8>, out: &mut Vec<Vec<u8>>) {
+            if !cur.is_empty() {
+                out.push(cur.clone());
+            }
+            if cur.len() == max {
+                return;
+            }
+            for a in 18u8..26 {
+                cur.push(a);
+                rec4(max, cur, out);
+                cur.pop();
+            }
+        }
+        rec4(max_len, &mut Vec::new(), &mut hists);
+    }
     // only maximal histories need running when every step is probed: a history
     // is a prefix of its extensions. Keep all of length max_len.
     let full: Vec<Vec<u8>> = hists.iter().filter(|h| h.len() == max_len).cloned().collect();
@@ -360,7 +421,7 @@ pub fn c13(args: &Args) {
         let mut rng = rng_for(seed, 0xC13, 0);
         for k in 0..n_tcp {
             let len = rng.gen_range(2..=7);
-            let hist: Vec<u8> = (0..len).map(|_| rng.gen_range(0..18)).collect();
+            let hist: Vec<u8> = (0..len).map(|_| rng.gen_range(0..26)).collect();
             let addr = free_tcp_addr();
             let server = match Server::listen(addr).await {
                 Ok(s) => s,
